@@ -1305,11 +1305,12 @@ class Context:
             end += 1
         if end == 0:
             return float("nan")
-        if end > 1100:
-            # Any 1100 digits in any radix exceed the double range (and the
-            # host refuses to convert very long digit strings to int)
+        digits = s[:end].lstrip("0")
+        if len(digits) > 1100:
+            # 1100 significant digits in any radix exceed the double range (and
+            # the host refuses to convert very long digit strings to int)
             return float("-inf") if negative else float("inf")
-        result = int(s[:end], radix)
+        result = int(digits or "0", radix)
         if result == 0:
             return -0.0 if negative else 0
         return as_double(-result if negative else result)
